@@ -52,6 +52,30 @@ type Ctx struct {
 	Defs []*Term
 	// Distinct groups: names of Int constants that are pairwise distinct (string literals, type ids).
 	distinct map[string][]string
+	// Facts are ground facts (e.g. impl_I(tid_T)) added to a query when all their symbols occur in it.
+	Facts   []*Term
+	factKey map[string]bool
+}
+
+// AddFact registers a ground fact once.
+func (c *Ctx) AddFact(key string, t *Term) {
+	if c.factKey == nil {
+		c.factKey = map[string]bool{}
+	}
+	if c.factKey[key] {
+		return
+	}
+	c.factKey[key] = true
+	c.Facts = append(c.Facts, t)
+}
+
+func termSyms(t *Term, out map[string]bool) {
+	if t.Op == "var" || t.Op == "app" {
+		out[t.Name] = true
+	}
+	for _, a := range t.Args {
+		termSyms(a, out)
+	}
 }
 
 func NewCtx() *Ctx {
@@ -732,6 +756,20 @@ func (c *Ctx) Script(assumptions []*Term, goal *Term, getValues []*Term, header 
 	}
 	for _, d := range defs {
 		sb.WriteString("(assert " + d.String() + ")\n")
+	}
+	for _, f := range c.Facts {
+		fs := map[string]bool{}
+		termSyms(f, fs)
+		all := true
+		for n := range fs {
+			if !syms[n] {
+				all = false
+				break
+			}
+		}
+		if all {
+			sb.WriteString("(assert " + f.String() + ")\n")
+		}
 	}
 	for _, a := range assumptions {
 		if a.IsTrue() {
